@@ -1417,11 +1417,19 @@ def _run_derived_pspace(cfg, recipe, rep):
     env = Env()
     S = build(recipe, env)
     dt = M.space_dtype(recipe)
-    if dt is None or dt.kind not in 'fc' or len(S) == 0:
+    struct = _pspace_struct(S) if len(S) else []
+
+    def _leaf_kinds(st):
+        if isinstance(st, list):
+            return set().union(*[_leaf_kinds(t) for t in st]) if st else set()
+        return {np.dtype(st[2]).kind}
+    if len(S) == 0 or not _leaf_kinds(struct) <= set('fc'):
         rep.skipped += 1
         return rep
+    # factors of different dtypes: `dtype` is documented as undefined, astype(d) still has to give
+    # every factor the dtype d; the real / complex counterparts are judged for one common dtype
+    mixed = dt is None
     wd = wdesc(S.weighting)
-    struct = _pspace_struct(S)
     rep.evals += 1
     if _try(lambda: S.astype(None))[0] == 'ok':
         rep.bad('ProductSpace.astype', 'none_dtype_accepted', 'astype(None) does not raise')
@@ -1453,7 +1461,7 @@ def _run_derived_pspace(cfg, recipe, rep):
             continue
         check('ProductSpace.astype', 'astype(%r)' % d, R, d)
     for which in ('real', 'complex'):
-        want = M.counterpart(dt, which)
+        want = None if mixed else M.counterpart(dt, which)
         if want is None:
             rep.skipped += 1
             continue
